@@ -98,6 +98,7 @@ def finish(chk: Check, seed: int = 0, evidence_dir: Optional[str] = None, quiet:
                 pass
     known = load_known()
     open_keys = {(k['property'], k['key']): k for k in known.get('open', [])}
+    open_sites = {(k['property'], k['site']): k for k in known.get('open', []) if k.get('site')}
 
     problems: List[str] = []
     for rid, floor in chk.floors.items():
@@ -115,12 +116,16 @@ def finish(chk: Check, seed: int = 0, evidence_dir: Optional[str] = None, quiet:
     for o in violated:
         seen.setdefault(o.key, o)
     violated = list(seen.values())
-    known_hits = [o for o in violated if (chk.prop, o.key) in open_keys]
-    fresh = [o for o in violated if (chk.prop, o.key) not in open_keys]
+    def known_entry(o):
+        # an open finding is identified by its key, or - when the code around it was restructured - by its site: the entry point
+        # it is reached from and the kind of operation that fails there (what the demonstrating input exercises)
+        return open_keys.get((chk.prop, o.key)) or (open_sites.get((chk.prop, o.extra.get('site'))) if o.extra.get('site') else None)
+    known_hits = [o for o in violated if known_entry(o) is not None]
+    fresh = [o for o in violated if known_entry(o) is None]
 
     lines: List[str] = []
     for o in known_hits:
-        k = open_keys[(chk.prop, o.key)]
+        k = known_entry(o)
         lines.append('KNOWN-FINDING: property=%s %s [%s] %s' % (chk.prop, o.key, k.get('id', '?'), k.get('what', o.detail)))
     replay_paths = []
     if True:
